@@ -63,8 +63,17 @@ fn sign_events<V: Fv>(proc_id: u64, seed: u64, nthreads: usize, per: usize, nkey
     all
 }
 
+/// message ids >= 1000 stand for long messages of exactly that many bytes
+fn message_of(mid: u64) -> Vec<u8> {
+    if mid >= 1000 {
+        (0..mid as usize).map(|i| (i % 251) as u8).collect()
+    } else {
+        format!("message-{}", mid).into_bytes()
+    }
+}
+
 fn sign_event_json<V: Fv>(proc_id: u64, thr: usize, seq: usize, kid: u64, mid: u64, sk: &V::Sk, pk: &V::Pk) -> Value {
-    let msg = format!("message-{}", mid).into_bytes();
+    let msg = message_of(mid);
     let sig = V::sign(&msg, sk);
     let b = V::sig_to_bytes(&sig);
     json!({"ev":"sign","proc":proc_id,"thr":thr,"seq":seq,"n":V::N,"key":kid,"msg":mid,
@@ -100,6 +109,22 @@ fn more_sign_histories(proc_id: u64, long512: usize, long1024: usize, bursts: us
             evs
         }));
     }
+    // long messages, around the sizes at which an implementation may switch buffers (the salt must be as fresh as for short ones)
+    hs.push(std::thread::spawn(move || {
+        let (ska, pka) = V512::generate();
+        let (skb, pkb) = V1024::generate();
+        let mut evs = vec![];
+        let mut seq = 0;
+        for rep in 0..3 {
+            for &len in &[1000u64, 4055, 4056, 4057, 4096, 4097, 8191, 8192, 8193, 16384, 65535, 65536, 65537, 100000] {
+                let _ = rep;
+                evs.push(sign_event_json::<V512>(proc_id, 230, seq, 230, len, &ska, &pka));
+                evs.push(sign_event_json::<V1024>(proc_id, 230, seq + 1, 231, len, &skb, &pkb));
+                seq += 2;
+            }
+        }
+        evs
+    }));
     let nb = 12usize;
     let barrier = Arc::new(std::sync::Barrier::new(nb));
     for t in 0..nb {
